@@ -29,7 +29,10 @@ func init() {
 				return term.StrC(time.Duration(d.SVal()).String())
 			}
 			s := term.UF("dur_str", term.Str, d)
+			defer e.lockSolver()()
+			e.mu.Lock()
 			e.durStrs[s] = d
+			e.mu.Unlock()
 			// inverse-pair axioms, instantiated for this term
 			e.Solver.Assert(term.Eq(term.UF("parse_dur", term.BV(64), s), d))
 			e.Solver.Assert(term.UF("parse_ok", term.Bool, s))
@@ -47,6 +50,8 @@ func init() {
 			}
 			ok := term.UF("parse_ok", term.Bool, s)
 			// "" never parses
+			unlock := e.lockSolver()
+			defer unlock()
 			e.Solver.Assert(term.Not(term.UF("parse_ok", term.Bool, term.StrC(""))))
 			if e.decide(st, ok) {
 				return Tuple{term.UF("parse_dur", term.BV(64), s), Iface{}}
